@@ -631,6 +631,9 @@ func runLifetimeSet(r *simkit.Run, t *topo, fails map[string]string) *lifeResult
 		if what == "shutdown" || what == "both" {
 			p.FailShutdown = true
 		}
+		p.FailNotifyConfig = what == "notify-config"
+		p.FailReady = what == "ready"
+		p.FailNotReady = what == "not-ready"
 	}
 	res := &lifeResult{world: w}
 	srv, err := service.New(context.Background(), w.serviceSettings(t), t.serviceConfig())
@@ -916,6 +919,12 @@ func runC10(r *simkit.Run) {
 		r.Logf("no valid topology drawn")
 		return
 	}
+	if tp.Chance(1, 3) {
+		// an extension that watches the configuration and the pipelines' readiness: its hooks are one more place where
+		// start-up (NotifyConfig, Ready) and shutdown (NotReady) can fail
+		t.Exts = append([]string{"watch/1"}, t.Exts...)
+		r.Sample = t
+	}
 	mode := tp.Weighted(1, 3, 2, 1) // 0: one failure position from the tape (replay target); 1: enumerate all positions; 2: a set of failures
 	base := runLifetime(r, &t, "", "")
 	if base.buildErr != nil {
@@ -944,6 +953,9 @@ func runC10(r *simkit.Run) {
 	var all []posn
 	for _, k := range keys {
 		all = append(all, posn{k, "start"}, posn{k, "shutdown"})
+		if k == "extension:watch/1" {
+			all = append(all, posn{k, "notify-config"}, posn{k, "ready"}, posn{k, "not-ready"})
+		}
 	}
 	if len(all) == 0 {
 		return
